@@ -121,7 +121,7 @@ pub fn check_pos_own(ctx: &mut Ctx, p: &Pos, b: &Board) {
 
 /// mode 0: round trips + null; 1: + strings of occupied sources and one empty probe; 2: + all
 /// strings; 3: like 1 without the empty probe and, for sources that hold no pawn, without the
-/// suffixes b and r (n and q stand for all four there; the full scans keep them); 4: strings whose source holds a man of the side to
+/// suffixes n, b and r (q stands for all four there; the full scans keep them); 4: strings whose source holds a man of the side to
 /// move, plus the lowest enemy-held square as a probe
 pub fn check_pos_mode(ctx: &mut Ctx, p: &Pos, b: &Board, mode: u8) {
     let full_scan = mode == 2;
@@ -174,8 +174,8 @@ pub fn check_pos_mode(ctx: &mut Ctx, p: &Pos, b: &Board, mode: u8) {
             }
             for i in 0..320 {
                 let (s, ff, t, pr) = &u[f * 320 + i];
-                if (*pr == B || *pr == R) && kind(p.b[f]) != P {
-                    continue; // non-pawn sources: the suffixes n and q stand for all four
+                if (*pr == B || *pr == R || *pr == N) && kind(p.b[f]) != P {
+                    continue; // non-pawn sources: the suffix q stands for all four
                 }
                 check_string(ctx, p, b, s, *ff, *t, *pr, &pseudo, &legal, false);
             }
@@ -190,7 +190,7 @@ pub fn check_pos_mode(ctx: &mut Ctx, p: &Pos, b: &Board, mode: u8) {
             }
             for i in 0..320 {
                 let (s, ff, t, pr) = &u[f * 320 + i];
-                if mode == 3 && (*pr == B || *pr == R) && p.b[f] != EMPTY && kind(p.b[f]) != P {
+                if mode == 3 && (*pr == B || *pr == R || *pr == N) && p.b[f] != EMPTY && kind(p.b[f]) != P {
                     continue;
                 }
                 check_string(ctx, p, b, s, *ff, *t, *pr, &pseudo, &legal, false);
